@@ -520,7 +520,7 @@ func NumberLocals(f *Fun) map[any]int {
 // Text renders the module.
 func (m *Module) Text() string {
 	p := &Printer{}
-	return p.Module(m)
+	return strings.Replace(p.Module(m), aliasMarker+"\n", "", 1)
 }
 
 func (p *Printer) w(format string, args ...any) { fmt.Fprintf(&p.sb, format, args...) }
@@ -540,24 +540,22 @@ func QuoteStr(s string) string {
 	return b.String()
 }
 
+const aliasMarker = ";;verif-alias-definitions;;"
+
 // TextNoisy renders the module with the given spelling noise.
 func (m *Module) TextNoisy(n Noise) string {
 	noise = n
-	vecAlias, vecAliasDefs = map[string]string{}, nil
+	vecAlias, vecAliasDefs, vecAliases, arrAliases = map[string]string{}, nil, 0, 0
 	defer func() { noise = Noise{} }()
 	p := &Printer{Explicit: n.Explicit}
 	body := p.Module(m)
+	// the aliases must be defined before their first use and after the scalar aliases they mention: the
+	// printer left a marker right after the scalar alias definitions
+	defs := ""
 	if len(vecAliasDefs) > 0 {
-		// the aliases must be defined before their first use; scalar aliases they mention are defined
-		// by the body's own preamble, so the vector definitions go right after that preamble
-		pre := ""
-		for strings.HasPrefix(body, "source_filename") || strings.HasPrefix(body, "target ") || strings.HasPrefix(body, "%$al") || strings.HasPrefix(body, `%"$al`) {
-			i := strings.IndexByte(body, '\n') + 1
-			pre, body = pre+body[:i], body[i:]
-		}
-		return pre + strings.Join(vecAliasDefs, "\n") + "\n" + body
+		defs = strings.Join(vecAliasDefs, "\n") + "\n"
 	}
-	return body
+	return strings.Replace(body, aliasMarker+"\n", defs, 1)
 }
 
 func (p *Printer) comment() {
@@ -591,6 +589,7 @@ func (p *Printer) Module(m *Module) string {
 			prev = "%" + QuoteName(name)
 		}
 	}
+	p.w("%s\n", aliasMarker) // the named vector, array and function types created while rendering go here (TextNoisy)
 	for _, t := range m.order() {
 		p.comment()
 		switch t.K {
@@ -1067,7 +1066,7 @@ func (p *Printer) callTail(i *Inst) string {
 		noise = saved
 		if name, ok := vecAlias["fn:"+full]; ok {
 			tyS = "%" + QuoteName(name)
-		} else if len(vecAlias) < 12 {
+		} else if len(vecAlias) < 12 && !strings.HasPrefix(full, "{") && !strings.HasPrefix(full, "<") { // `type {} (...)`, `type <2 x i8> (...)`: in a type definition LLVM reads the struct or vector type and stops
 			name := fmt.Sprintf("$fn%d", len(vecAliasDefs))
 			vecAlias["fn:"+full] = name
 			vecAliasDefs = append(vecAliasDefs, fmt.Sprintf("%%%s = type %s", QuoteName(name), full))
